@@ -211,6 +211,15 @@ def run_brew(case, workdir=None, keep=False):
             with mk.patched(CHUNK_SIZE_ROWS_PREDICTION=case.get("pred_chunk", 700000),
                             CHUNK_SIZE_READ_ALL_DATA=case.get("read_chunk", 200000)):
                 ret = mokapot.brew(dsets, model, **kw)
+                if case.get("refeed_seed") is not None and all(bool(m.is_trained) for m in ret[1]):
+                    # the documented reuse flow: the fold models of this run score the same collection again in a second
+                    # brew() under ANOTHER seed; fits are those of the first run, predictions those of the second
+                    with rec.lock:
+                        rec.events[:] = [e for e in rec.events if e[0] != "pred"]
+                    dsets = build_inputs(case, wd)
+                    kw2 = dict(kw)
+                    kw2["rng"] = int(case["refeed_seed"])
+                    ret = mokapot.brew(dsets, list(ret[1]), **kw2)
         except Exception as e:
             raised = "%s: %s" % (type(e).__name__, str(e)[:160])
             rtype = type(e).__name__
